@@ -9,6 +9,7 @@ import Compass.Proofs.Num
 import Compass.Model.Instance
 import Compass.Proofs.SearchRoute
 import Compass.Proofs.SearchDiscipline
+import Compass.Proofs.Build
 
 namespace Compass
 namespace C04
@@ -205,6 +206,240 @@ theorem edge_oriented_seam_counterexample :
     routeEdgesOf (seamConfig.runEdge 0 (some 2) [1, 2]) = some [[0, 1, 2]] ∧
     (FrontierM.turnRestriction (α := ℚ) [(0, 1)]).valid 1 (some 0) = some false := by
   decide +kernel
+
+/-! ### What the query and the files say is what the models compare with
+
+The property quantifies over queries: `VehicleParameters::from_query` and
+`RoadClassParser::read_query` turn JSON into the vehicle and the allowed classes.  A well-formed
+query is read to exactly the given dimensions in the given units; anything else is an error response
+— the functions below are total, so never a panic — and never a different vehicle. -/
+
+open Build
+
+/-- a dimension is read from exactly a two-element array `[number, "unit"]`, as that number in that
+unit; no other JSON shape gives a dimension -/
+theorem vehicle_dimension_read_exactly (dec : Nat → α) (j : Option Json) :
+    (∀ x u, dimOfJson dec j = some (x, u) ↔ ∃ l b, j = some (.arr [.num l b, .str u.name]) ∧ x = dec b) ∧
+    (∀ x u, weightOfJson dec j = some (x, u) ↔ ∃ l b, j = some (.arr [.num l b, .str u.name]) ∧ x = dec b) :=
+  ⟨dimOfJson_iff dec j, weightOfJson_iff dec j⟩
+
+/-- `from_query` answers with a vehicle exactly when the query's `vehicle_parameters` has the five
+dimensions well-formed and `number_of_axles` an integer from 0 to 255, and the vehicle is those
+values as they stand: the integer in the query is the number of axles (it is never wrapped). -/
+theorem vehicle_parameters_parsed_exactly (dec : Nat → α) (q : Json) (p : VParams α) :
+    vehicleParamsOfQuery dec q = .ok p ↔
+      ∃ vp, q.get? "vehicle_parameters" = some vp ∧
+        dimOfJson dec (vp.get? "height") = some p.height ∧
+        dimOfJson dec (vp.get? "width") = some p.width ∧
+        dimOfJson dec (vp.get? "total_length") = some p.totalLength ∧
+        dimOfJson dec (vp.get? "trailer_length") = some p.trailerLength ∧
+        weightOfJson dec (vp.get? "total_weight") = some p.totalWeight ∧
+        ∃ a, vp.get? "number_of_axles" = some a ∧ u64OfJson a = some p.axles ∧ p.axles ≤ 255 :=
+  vehicleParams_ok_iff dec q p
+
+/-- the refusals name what is wrong: no `vehicle_parameters`; a number of axles that is missing, not
+a non-negative integer, or beyond what a vehicle record can hold -/
+theorem vehicle_parameters_refusals (dec : Nat → α) (q : Json) :
+    (q.get? "vehicle_parameters" = none → vehicleParamsOfQuery dec q = .error .missing) ∧
+    (∀ vp h w tl trl tw, q.get? "vehicle_parameters" = some vp →
+      dimOfJson dec (vp.get? "height") = some h → dimOfJson dec (vp.get? "width") = some w →
+      dimOfJson dec (vp.get? "total_length") = some tl → dimOfJson dec (vp.get? "trailer_length") = some trl →
+      weightOfJson dec (vp.get? "total_weight") = some tw →
+      (vp.get? "number_of_axles" = none → vehicleParamsOfQuery dec q = .error .axlesMissing) ∧
+      (∀ a, vp.get? "number_of_axles" = some a → u64OfJson a = none →
+        vehicleParamsOfQuery dec q = .error .axlesType) ∧
+      (∀ a n, vp.get? "number_of_axles" = some a → u64OfJson a = some n → 255 < n →
+        vehicleParamsOfQuery dec q = .error .axlesRange)) := by
+  refine ⟨fun h => by simp [vehicleParamsOfQuery, h], ?_⟩
+  intro vp h w tl trl tw hq h1 h2 h3 h4 h5
+  refine ⟨fun h6 => by simp [vehicleParamsOfQuery, hq, h1, h2, h3, h4, h5, h6],
+    fun a h6 h7 => by simp [vehicleParamsOfQuery, hq, h1, h2, h3, h4, h5, h6, h7],
+    fun a n h6 h7 hn => ?_⟩
+  simp only [vehicleParamsOfQuery, hq, h1, h2, h3, h4, h5, h6, h7]
+  rw [if_neg (by omega)]
+
+/-- a query whose first offending dimension is `f` is refused with the error that names `f`
+(height, width, total length, trailer length, total weight, in the order the code reads them) -/
+theorem vehicle_parameters_first_bad_field (dec : Nat → α) (q vp : Json)
+    (hq : q.get? "vehicle_parameters" = some vp) :
+    (dimOfJson dec (vp.get? "height") = none → vehicleParamsOfQuery dec q = .error .height) ∧
+    (∀ h, dimOfJson dec (vp.get? "height") = some h → dimOfJson dec (vp.get? "width") = none →
+      vehicleParamsOfQuery dec q = .error .width) ∧
+    (∀ h w, dimOfJson dec (vp.get? "height") = some h → dimOfJson dec (vp.get? "width") = some w →
+      dimOfJson dec (vp.get? "total_length") = none → vehicleParamsOfQuery dec q = .error .totalLength) ∧
+    (∀ h w tl, dimOfJson dec (vp.get? "height") = some h → dimOfJson dec (vp.get? "width") = some w →
+      dimOfJson dec (vp.get? "total_length") = some tl → dimOfJson dec (vp.get? "trailer_length") = none →
+      vehicleParamsOfQuery dec q = .error .trailerLength) ∧
+    (∀ h w tl trl, dimOfJson dec (vp.get? "height") = some h → dimOfJson dec (vp.get? "width") = some w →
+      dimOfJson dec (vp.get? "total_length") = some tl → dimOfJson dec (vp.get? "trailer_length") = some trl →
+      weightOfJson dec (vp.get? "total_weight") = none → vehicleParamsOfQuery dec q = .error .totalWeight) := by
+  refine ⟨fun h1 => by simp [vehicleParamsOfQuery, hq, h1], fun h h1 h2 => by simp [vehicleParamsOfQuery, hq, h1, h2],
+    fun h w h1 h2 h3 => by simp [vehicleParamsOfQuery, hq, h1, h2, h3],
+    fun h w tl h1 h2 h3 h4 => by simp [vehicleParamsOfQuery, hq, h1, h2, h3, h4],
+    fun h w tl trl h1 h2 h3 h4 h5 => by simp [vehicleParamsOfQuery, hq, h1, h2, h3, h4, h5]⟩
+
+/-- an array of integers from 0 to 255 is the allowed set as it stands -/
+theorem road_classes_numeric_iff (v : Json) (cls : List Nat) :
+    u8SetOfJson v = some cls ↔
+      ∃ xs, v = .arr xs ∧ List.Forall₂ (fun x c => u64OfJson x = some c ∧ c ≤ 255) xs cls := by
+  unfold u8SetOfJson
+  cases v with
+  | arr xs =>
+    simp only [Json.asArray?, Json.arr.injEq, exists_eq_left']
+    rw [allSome_iff]
+    constructor <;> intro h <;> refine List.Forall₂.imp ?_ h <;> intro x c hxc
+    · unfold u8OfJson at hxc
+      split at hxc
+      · rename_i n hn
+        split at hxc
+        · injection hxc with hxc; subst hxc; exact ⟨hn, ‹_›⟩
+        · cases hxc
+      · cases hxc
+    · simp [u8OfJson, hxc.1, hxc.2]
+  | _ => simp [Json.asArray?]
+
+/-- `road_classes` of the query: no field = no filter; an array of class numbers is the allowed set;
+otherwise — only when the model has a name mapping — an array of names, each mapped; a name without
+mapping entry, a value that is neither, and names without a mapping are errors, never "no filter" -/
+theorem road_classes_of_query (mapping : List (String × Nat)) (q : Json) :
+    (q.get? "road_classes" = none → roadClassesOfQuery mapping q = some none) ∧
+    (∀ v, q.get? "road_classes" = some v →
+      (∀ cls, u8SetOfJson v = some cls → roadClassesOfQuery mapping q = some (some cls)) ∧
+      (u8SetOfJson v = none → mapping = [] → roadClassesOfQuery mapping q = none) ∧
+      (u8SetOfJson v = none → mapping ≠ [] → ∀ names : List String, v = .arr (names.map Json.str) →
+        roadClassesOfQuery mapping q =
+          (Build.allSome (fun s => (mapping.find? (fun p => p.1 == s)).map (·.2)) names).map some) ∧
+      (u8SetOfJson v = none → (∀ names : List String, v ≠ .arr (names.map Json.str)) →
+        roadClassesOfQuery mapping q = none)) := by
+  refine ⟨fun h => by simp [roadClassesOfQuery, h], fun v hv => ⟨fun cls h => by simp [roadClassesOfQuery, hv, h],
+    fun h hm => by simp [roadClassesOfQuery, hv, h, hm], ?_, ?_⟩⟩
+  · intro h hm names hnames
+    subst hnames
+    have hne : mapping.isEmpty = false := by cases mapping <;> simp_all
+    have hstr : ∀ ns : List String, Build.allSome Json.asStr? (ns.map Json.str) = some ns := by
+      intro ns
+      rw [allSome_iff]
+      induction ns with
+      | nil => exact List.Forall₂.nil
+      | cons n ns ih => exact List.Forall₂.cons rfl ih
+    simp only [roadClassesOfQuery, hv, h, hne, Bool.false_eq_true, ↓reduceIte, Json.asArray?, hstr]
+    cases Build.allSome (fun s => (mapping.find? (fun p => p.1 == s)).map (·.2)) names <;> rfl
+  · intro h hno
+    simp only [roadClassesOfQuery, hv, h]
+    split
+    · rfl
+    · cases hv' : v.asArray? with
+      | none => rfl
+      | some xs =>
+        simp only
+        cases hs : Build.allSome Json.asStr? xs with
+        | none => rfl
+        | some names =>
+          exfalso
+          apply hno names
+          have hxs : v = .arr xs := by cases v <;> simp_all [Json.asArray?]
+          rw [hxs]
+          congr 1
+          have hfa := (allSome_iff _ _ _).1 hs
+          clear hs hxs hv' hv h hno
+          induction hfa with
+          | nil => rfl
+          | @cons x n xs ns hxn _ ih =>
+            have : x = .str n := by cases x <;> simp_all [Json.asStr?]
+            rw [this, ih]; rfl
+
+/-- the class of an edge beyond the loaded table is an error of the search, never "allowed" -/
+theorem road_class_beyond_table (cls table : List Nat) (e : Nat) (prev : Option Nat) :
+    (FrontierM.roadClass (α := α) (some cls) table).valid e prev = none ↔ table[e]? = none := by
+  simp only [FrontierM.valid]
+  cases table[e]? <;> simp
+
+/-- what `RoadClassBuilder` and its service hand the search: the file's rows as the class table (each
+row an integer 0‥255), the allowed set read from the query with the configured mapping -/
+theorem road_class_build_ok (cfg : Json) (file : Option (List IntCell)) (q : Json) (m : FrontierM α)
+    (h : roadClassBuild cfg file q = .ok m) :
+    ∃ rows table mapping allowed, file = some rows ∧ Build.allSome IntCell.u8 rows = some table ∧
+      roadClassParserOfConfig cfg = some mapping ∧ roadClassesOfQuery mapping q = some allowed ∧
+      m = .roadClass allowed table := by
+  unfold roadClassBuild at h
+  split at h
+  · cases h
+  · split at h
+    · cases h
+    · rename_i rows _
+      split at h
+      · cases h
+      · rename_i table ht
+        split at h
+        · cases h
+        · rename_i mapping hm
+          split at h
+          · cases h
+          · rename_i allowed ha
+            injection h with h
+            exact ⟨rows, table, mapping, allowed, rfl, ht, hm, ha, h.symm⟩
+
+/-- a row of the vehicle restriction file becomes a restriction only when its name is one of the six
+and its unit belongs to the name's family; the restriction limits that dimension at that value -/
+theorem restriction_row_read_exactly (name : String) (x : α) (unit : String) (r : Restriction α)
+    (h : toRestriction name x unit = some r) :
+    (∃ wu, WeightUnit.ofName? unit = some wu ∧
+      ((name = "maximum_total_weight" ∧ r = .weight false x wu) ∨
+       (name = "maximum_weight_per_axle" ∧ r = .weight true x wu))) ∨
+    (∃ du, DistanceUnit.ofName? unit = some du ∧
+      ((name = "maximum_length" ∧ r = .length 2 x du) ∨ (name = "maximum_width" ∧ r = .length 3 x du) ∨
+       (name = "maximum_height" ∧ r = .length 4 x du) ∨ (name = "maximum_trailer_length" ∧ r = .length 5 x du))) := by
+  unfold toRestriction at h
+  simp only [beq_iff_eq] at h
+  split at h
+  · rename_i hn
+    cases hu : WeightUnit.ofName? unit with
+    | none => simp [hu] at h
+    | some wu => simp only [hu, Option.map_some, Option.some.injEq] at h; exact Or.inl ⟨wu, rfl, Or.inl ⟨hn, h.symm⟩⟩
+  · split at h
+    · rename_i hn
+      cases hu : WeightUnit.ofName? unit with
+      | none => simp [hu] at h
+      | some wu => simp only [hu, Option.map_some, Option.some.injEq] at h; exact Or.inl ⟨wu, rfl, Or.inr ⟨hn, h.symm⟩⟩
+    · cases hu : DistanceUnit.ofName? unit with
+      | none =>
+        simp only [hu, Option.map_none] at h
+        repeat' split at h
+        all_goals cases h
+      | some du =>
+        simp only [hu, Option.map_some] at h
+        right
+        refine ⟨du, rfl, ?_⟩
+        split at h
+        · rename_i hn; injection h with h; exact Or.inl ⟨hn, h.symm⟩
+        · split at h
+          · rename_i hn; injection h with h; exact Or.inr (Or.inl ⟨hn, h.symm⟩)
+          · split at h
+            · rename_i hn; injection h with h; exact Or.inr (Or.inr (Or.inl ⟨hn, h.symm⟩))
+            · split at h
+              · rename_i hn; injection h with h; exact Or.inr (Or.inr (Or.inr ⟨hn, h.symm⟩))
+              · cases h
+
+/-! Non-vacuity: a well-formed query, an out-of-range number of axles, class names with and without mapping. -/
+def exQuery : Json :=
+  .obj [("vehicle_parameters", .obj [("height", .arr [.num "4.1" 41, .str "meters"]), ("width", .arr [.num "8" 8, .str "feet"]),
+    ("total_length", .arr [.num "20" 20, .str "meters"]), ("trailer_length", .arr [.num "48" 48, .str "feet"]),
+    ("total_weight", .arr [.num "36" 36, .str "tons"]), ("number_of_axles", .num "5" 5)]),
+   ("road_classes", .arr [.str "motorway", .str "trunk"])]
+
+example : (vehicleParamsOfQuery (fun b => (b : ℚ) / 10) exQuery).toOption.map
+    (fun p => (p.height, p.width, p.totalWeight, p.axles)) =
+    some ((41 / 10, .meters), (8 / 10, .feet), (36 / 10, .tons), 5) := by decide +kernel
+example : (match vehicleParamsOfQuery (fun b => (b : ℚ))
+    (.obj [("vehicle_parameters", .obj [("height", .arr [.num "4" 4, .str "meters"]), ("width", .arr [.num "8" 8, .str "feet"]),
+      ("total_length", .arr [.num "20" 20, .str "meters"]), ("trailer_length", .arr [.num "48" 48, .str "feet"]),
+      ("total_weight", .arr [.num "36" 36, .str "tons"]), ("number_of_axles", .num "256" 256)])]) with
+    | .error e => some e | .ok _ => none) = some .axlesRange := by decide +kernel
+example : roadClassesOfQuery [("motorway", 1), ("trunk", 2)] exQuery = some (some [1, 2]) := by decide
+example : roadClassesOfQuery [] exQuery = none := by decide
+example : roadClassesOfQuery [("motorway", 1)] exQuery = none := by decide
+example : roadClassesOfQuery [] (.obj [("road_classes", .arr [.num "3" 3, .num "7" 7])]) = some (some [3, 7]) := by decide
+example : roadClassesOfQuery [] (.obj [("road_classes", .arr [.num "256" 256])]) = none := by decide
 
 /-! ### Non-vacuity -/
 example : (FrontierM.roadClass (α := ℚ) (some [1, 2]) [0, 2, 5]).valid 1 none = some true := by decide
